@@ -3,7 +3,7 @@ NEXT Next
 VIEW View
 CONSTANTS
   MaxFaults = 2
-  Kinds = {"msg", "namew", "rdw", "optw", "namet", "rdt", "ttl", "zone", "msgt", "optm", "rdg"}
+  Kinds = {"msg", "namew", "rdw", "optw", "namet", "rdt", "ttl", "zone", "msgt", "optm", "rdg", "zinc"}
   PairBases = {"M1", "M5", "N1", "N2", "L1", "T1"}
 INVARIANT OctetsOK
 INVARIANT DescriptorDeterminesInput
@@ -14,6 +14,7 @@ INVARIANT RdlenMismatchRefused
 INVARIANT FailuresOrdered
 INVARIANT NameLaw
 INVARIANT OptmLaw
+INVARIANT ZincLaw
 INVARIANT TextLaw
 INVARIANT SpecLaw
 CHECK_DEADLOCK FALSE
